@@ -47,16 +47,19 @@ def decMode (t : MTerm) (n : Nat) (v : Bool) : MTerm :=
   else if baseline.contains n ∨ t.supported.contains n then { t with modes := setMode t.modes n v }
   else t
 
-def startsWith (s p : String) : Bool := s.startsWith p
+def startsWith (s p : String) : Bool := p.toList.isPrefixOf s.toList
+def endsWith (s p : String) : Bool := p.toList.isSuffixOf s.toList
 
+/-- Sequences outside the renderer's token vocabulary, by their hex form (the comparisons are on character
+    lists so that they can be reasoned about for every payload). -/
 def other (t : MTerm) (raw : String) : MTerm :=
-  if raw = "1b3d" then { t with keypadApp := true }
-  else if raw = "1b3e" then { t with keypadApp := false }
-  else if raw = "1b5b3c75" then (if t.kittySupported then { t with kitty := t.kitty - 1 } else t)      -- CSI < u
-  else if startsWith raw "1b5b3e" ∧ raw.endsWith "75" then                                             -- CSI > flags u
+  if raw.toList = "1b3d".toList then { t with keypadApp := true }
+  else if raw.toList = "1b3e".toList then { t with keypadApp := false }
+  else if raw.toList = "1b5b3c75".toList then (if t.kittySupported then { t with kitty := t.kitty - 1 } else t)      -- CSI < u
+  else if startsWith raw "1b5b3e" ∧ endsWith raw "75" then                                             -- CSI > flags u
     (if t.kittySupported then { t with kitty := t.kitty + 1 } else t)
   else if startsWith raw "1b5d3137363b" then                                                            -- OSC 176 ;
-    (if t.appIdSupported ∧ raw ≠ "1b5d3137363b3f" then { t with appId := (raw.drop 12).toString } else t)
+    (if t.appIdSupported ∧ raw.toList ≠ "1b5d3137363b3f".toList then { t with appId := String.ofList (raw.toList.drop 12) } else t)
   else t
 
 def step (t : MTerm) : Tok → MTerm
